@@ -1126,3 +1126,22 @@ Proof.
   - right. exists r. split; [exact Hin|]. split; [exact Hn|]. cbn zeta. rewrite H.
     destruct (dueng_row_R q r) as (E1 & E2 & E3 & E4). cbn zeta in *. repeat split; assumption.
 Qed.
+
+(* tillage under automatic harvest: the date never moves back, never stays inside a stand whose harvest is known, and moves only by
+   the two documented rules *)
+Lemma till_adapt_spec z saat ernte einte autohar e' :
+  till_adapt z saat ernte einte autohar = Some e' ->
+  einte <= e' /\ ~ (0 < saat /\ saat < e' /\ e' <= ernte) /\
+  (e' = einte \/ (e' = einte + 2 /\ z = einte /\ 0 < saat <= z /\ ernte = 0) \/ (e' = ernte + 1 /\ autohar = true /\ z <= ernte)).
+Proof.
+  unfold till_adapt.
+  destruct (z =? einte) eqn:A; destruct (0 <? saat) eqn:B; destruct (saat <=? z) eqn:C; destruct (ernte =? 0) eqn:D; cbn [andb];
+    repeat match goal with |- context [?a <? ?b] => destruct (a <? b) eqn:?; cbn [andb] end;
+    repeat match goal with |- context [?a <=? ?b] => destruct (a <=? b) eqn:?; cbn [andb] end;
+    try destruct autohar; cbn [andb]; intros H; inversion H; subst; clear H;
+    repeat match goal with
+           | H : (_ =? _) = true |- _ => apply Z.eqb_eq in H | H : (_ =? _) = false |- _ => apply Z.eqb_neq in H
+           | H : (_ <? _) = true |- _ => apply Z.ltb_lt in H | H : (_ <? _) = false |- _ => apply Z.ltb_ge in H
+           | H : (_ <=? _) = true |- _ => apply Z.leb_le in H | H : (_ <=? _) = false |- _ => apply Z.leb_gt in H end;
+    repeat split; try lia; try (intros (? & ? & ?); lia); auto; try (right; lia); try (left; lia).
+Qed.
